@@ -8,7 +8,7 @@ import safeds_stubgen.api_analyzer._ast_visitor as V
 from harness.zoo import Cur, rd
 from safeds_stubgen.api_analyzer import API, TypeSourcePreference, TypeSourceWarning
 from safeds_stubgen.api_analyzer._api import Module
-from safeds_stubgen.api_analyzer._types import NamedType
+from safeds_stubgen.api_analyzer._types import NamedType, UnknownType
 from safeds_stubgen.docstring_parsing import (
     AbstractDocstringParser,
     AttributeDocstring,
@@ -23,6 +23,8 @@ from vlib.hsupport import THOROUGH, OutOfRange, fixed, judge, note, untraced
 SEL_LEN = 14
 T1 = NamedType("int", "builtins.int")
 T2 = NamedType("str", "builtins.str")
+ANY = NamedType("Any", "typing.Any")
+UNRES_FORM, UNRES_IMPORT = "unresolved:special-form", "unresolved:unimported"
 MAXP = 2
 MAXR = 2 if THOROUGH else 1
 
@@ -67,7 +69,10 @@ def decode(sel, cur):
             doc = [None, T2][rd(sel, cur, 2)]
             doc_default, code_default = "", False
         params.append((f"p{i}", hint, doc, doc_default, code_default))
-    ret_hint = [None, T1, T2, (T1, T2), (T2, T1)][rd(sel, cur, 5)]
+    # UNRES_*: a return hint that is written but that mypy cannot resolve (-> "pd.DataFrame" without import: Any of kind
+    # special_form, the hint is then `Any`; -> xml.nosuch.Thing of a submodule that cannot be found: Any from_unimported_type
+    # without import name, the hint is then the unknown type)
+    ret_hint = [None, T1, T2, (T1, T2), (T2, T1), UNRES_FORM, UNRES_IMPORT][rd(sel, cur, 7)]
     if isinstance(ret_hint, tuple) and not THOROUGH and (n > 1 or params[0][1] is not None or params[0][2] is not None):
         raise OutOfRange  # quick tier: tuple return hints are combined with the plainest parameter list only
     nres = rd(sel, cur, (2 if isinstance(ret_hint, tuple) else MAXR) + 1)
@@ -80,8 +85,16 @@ def run(params, ret_hint, res_docs, pref, warn):
     shim.install()
     args = [shim.argument(n, shim.ArgKind.ARG_OPT if cd else shim.ArgKind.ARG_POS, annotation=_mypy(h),
                           initializer=shim.int_expr(1) if cd else None) for n, h, d, dd, cd in params]
-    ret = shim.tuple_type([_mypy(t) for t in ret_hint]) if isinstance(ret_hint, tuple) else _mypy(ret_hint)
-    node = shim.func_def("f", "pkg.m.f", args, ret=ret, annotated=True,
+    un_ret = None
+    if ret_hint in (UNRES_FORM, UNRES_IMPORT):
+        import mypy.types as RT
+
+        # (mypy records no missing_import_name for a type of a missing submodule: import xml.nosuch -> xml.nosuch.Thing)
+        ret = shim.any_type(RT.TypeOfAny.special_form if ret_hint == UNRES_FORM else RT.TypeOfAny.from_unimported_type)
+        un_ret = shim.unbound("pd.DataFrame" if ret_hint == UNRES_FORM else "xml.nosuch.Thing")
+    else:
+        ret = shim.tuple_type([_mypy(t) for t in ret_hint]) if isinstance(ret_hint, tuple) else _mypy(ret_hint)
+    node = shim.func_def("f", "pkg.m.f", args, ret=ret, annotated=True, unanalyzed_ret=un_ret,
                          body=[shim.expr_stmt(shim.mk(shim.N.EllipsisExpr))])
     # griffe reports the default of the signature (as source text) when the docstring itself names none
     parser = StubParser({n: ParameterDocstring(type=d, default_value=dd or ("1" if cd and d is not None else ""), description="")
@@ -93,7 +106,8 @@ def run(params, ret_hint, res_docs, pref, warn):
     vis.mypy_file = shim.mypy_file("pkg.m", "pkg/m.py")
     logged = []
     saved = V.logging.warning
-    V.logging.warning = lambda msg, *a, **k: logged.append(str(msg))
+    # only discrepancy warnings are the subject ("Could not parse a type ..." is logged under either setting)
+    V.logging.warning = lambda msg, *a, **k: logged.append(str(msg)) if str(msg).startswith("Different type") else None
     try:
         vis.enter_funcdef(node)
     finally:
@@ -140,6 +154,8 @@ def reconcile(sel: List[int]) -> bool:
             if not cd and p.is_optional:
                 labels.append(f"required-parameter-became-optional:{why}")
         # (c) result types per the table
+        if ret_hint in (UNRES_FORM, UNRES_IMPORT):
+            ret_hint = ANY if ret_hint == UNRES_FORM else UnknownType()
         code_results = list(ret_hint) if isinstance(ret_hint, tuple) else ([ret_hint] if ret_hint is not None else [])
         for i in range(max(len(code_results), len(res_docs))):
             c = code_results[i] if i < len(code_results) else None
